@@ -25,7 +25,16 @@ ASSUMPTIONS = [
     "ValueError / TimeoutError / OSError / AssertionError; sys.exit codes are non-negative ints, None or a string",
     "a database that cannot be opened is represented by a file that is not a database and by a foreign schema version; faults "
     "inside `_db_finish_run_meta` (Ctrl-C while the run_meta row is completed / while the connection is closed in the "
-    "`finally:` block) are not modelled",
+    "`finally:` block) are not modelled in Model/Lifecycle.lean; Model/LifecycleDb.lean models them statement by statement: one fault "
+    "(sqlite3.OperationalError before the statement is performed / Ctrl-C while it is awaited, the statement being performed by the "
+    "sqlite thread) at any awaited execute / executescript / commit of DBHandler.connect, insert_run_meta, complete_run_meta, "
+    "disconnect, injected by wrapping aiosqlite.Connection (main task only, counted per call). An OperationalError inside "
+    "complete_run_meta is compared with the model but a completed row is not demanded (the database refuses that very write); for a "
+    "Ctrl-C that arrives inside the finally block (complete_run_meta / disconnect) the code the run had ended with and 130 are both "
+    "accepted as long as return value, META.json and the row agree; a SECOND real SIGINT within one asyncio.run() (asyncio's "
+    "force-quit: KeyboardInterrupt raised wherever the main thread is) is not represented - when the command's own code was already "
+    "interrupted by SIGINT, the Ctrl-C at the database statement is delivered by Task.cancel(). One fault point breaks the property on the tree as it is "
+    "(Ctrl-C at the INSERT of insert_run_meta: known_findings.jsonl; `Fault.bad`)",
     "the lock file: 'cannot be locked' is represented by a lock file below a missing directory / below a regular file (any "
     "OSError of open / flock takes the same `except OSError` -> exit 72); 'held by somebody else' by a second descriptor in "
     "the same process that releases it once the run has logged that it waits; Ctrl-C during that wait by SIGINT / "
@@ -159,6 +168,8 @@ def describe(c):
     w = c["world"]
     if c.get("dbclose"):
         parts.append("dbclose=" + c["dbclose"])
+    if c.get("dbfault"):
+        parts.append("dbfault=" + fault_name(c["dbfault"]))
     if c["f_tpStop"] == "cancel" and (c.get("how") or {}).get("tpStop") == "on-entry":
         parts.append("ctrl-c-before-the-tester-present-task-is-awaited")
     if w["lock"] != "free":
@@ -172,10 +183,43 @@ def describe(c):
     return ":".join(parts)
 
 
+def fault_name(f):
+    return f"{f['call']}.{f['idx']}.{f['mode']}"
+
+
+DB_CALLS = {"connect": 5, "insert": 2, "complete": 2, "disconnect": 1}   # awaited statements per call (Model/LifecycleDb.lean: awaits)
+
+
+def db_body(c):
+    """the one event of the command's own code in a database-fault case (None if the case has more than that)"""
+    c = norm(c)
+    evs = [c[k] for k in SCRIPT_ORDER if k not in ("f_dumpcap",) and c[k] != "ok"]
+    if len(evs) > 1 or c["f_dumpcap"] != "started" or not world_benign(c) or not c["db"] or c.get("dbclose"):
+        return None
+    if evs and not any(c[p] == evs[0] for p in POINTS):
+        return None
+    return evs[0] if evs else "ok"
+
+
+def db_line(op, c):
+    f = c["dbfault"]
+    return " ".join([op, c["kind"], f["call"], str(f["idx"]), f["mode"], db_body(c)])
+
+
+def db_projection(c, fin, o):
+    """the observation of a run in the syntax of the driver's `dbrun`"""
+    f = split_final(fin)
+    row = strip_times(f)["db"]
+    finished = f["logclosed"] == "1" and f["lock"] == "1" and (not c["art"] or f["meta"] != "none")
+    return (f"exit={f['exit']} row={row} closed={f['dbclosed']} finished={int(finished)} "
+            f"fired={int(bool(o.get('dbfault_fired')))}")
+
+
 def complexity(c):
     c = norm(c)
     w = c["world"]
-    return (sum(1 for k in SCRIPT_ORDER if c[k] not in ("ok", "started")) + (0 if world_benign(c) else 1) + len(w["runs"]),
+    return (sum(1 for k in SCRIPT_ORDER if c[k] not in ("ok", "started")) + (0 if world_benign(c) else 1) + len(w["runs"])
+            + (1 if c.get("dbfault") else 0),
             sum(1 for r in RES + FLAGS if c[r]), KINDS.index(c["kind"]), describe(c))
 
 
@@ -411,6 +455,26 @@ def build_cases(ctx):
                     c["dbclose"] = f
                     cases.append(("db-close-fault", c))
     ctx.exhaustive_parts.append("db close faults: 3 kinds x 3 resource combinations with a database x 5 scripts x {disconnect raises, Ctrl-C at disconnect}")
+    # 1c. a fault at one await INSIDE a database call: every awaited statement of connect / insert_run_meta / complete_run_meta /
+    #     disconnect (and one index past the last: never reached) x {OperationalError, Ctrl-C by SIGINT / Task.cancel} x what the
+    #     command itself ends with
+    bodies = ["ok", "exit:3", "conn", "other", "kbd", "cancel"] if full else ["exit:3", rng.choice(["conn", "other", "kbd", "cancel", "uds"])]
+    for kind in KINDS:
+        for call, n in DB_CALLS.items():
+            for i in range(n + 1):
+                for mode in ("raise", "cancel"):
+                    for j, b in enumerate([None] + bodies):   # (None: the smallest run there is - only the database switched on)
+                        res = "0010" if b is None else "0110" if b == "ok" else "1111"
+                        c = mk(kind, res, **({} if b in (None, "ok") else {POINTS[(i + j) % len(POINTS)]: b}))
+                        c["dbfault"] = {"call": call, "idx": i, "mode": mode}
+                        c = pick_how(rng, c)
+                        if mode == "cancel" and b is not None:
+                            c.setdefault("how", {}).setdefault("cancel", rng.choice(HOW["cancel"]))
+                        cases.append(("db-statement-fault", c))
+    ctx.exhaustive_parts.append("a fault at every awaited sqlite statement (execute / executescript / commit) of DBHandler.connect (5), "
+                                "insert_run_meta (2), complete_run_meta (2), disconnect (1) and one past the last x {the statement fails "
+                                "with OperationalError, Ctrl-C (SIGINT / Task.cancel) while it is awaited} x 3 kinds x "
+                                f"{len(bodies)} endings of the command's own code")
     # 2. every concrete exception class / way of cancelling / non-int exit code, everything switched on
     for kind in KINDS:
         for p in (POINTS if full else ["main"]):
@@ -610,11 +674,27 @@ def evaluate(ctx, runner, cases):
     spec = ctx.lean([" ".join(["spec", world_token(cases[i]), cases[i]["kind"], cfg_bits(cases[i])] + script_words(cases[i])
                                + ["|", fins[i][0]]) for i in idx])
     spec_by = dict(zip(idx, spec))
+    # a fault at an await inside a database call: Model/LifecycleDb.lean is the model and carries the demands
+    dbi = [i for i in idx if cases[i].get("dbfault")]
+    dbmodel = dict(zip(dbi, ctx.lean([db_line("dbrun", cases[i]) for i in dbi])))
+    dbproj = {i: db_projection(cases[i], fins[i][0], obs[i]) for i in dbi}
+    dbspec = dict(zip(dbi, ctx.lean([db_line("dbspec", cases[i]) + " | " + dbproj[i] for i in dbi])))
     out = []
     for i, (c, o) in enumerate(zip(cases, obs)):
         fin, direct, _t = fins[i]
         if fin is None:
             out.append((None, model[i], [], direct, [] if o.get("skipped") else ["harness-error"], o))
+            continue
+        if i in dbmodel:
+            tag = "[" + fault_name(c["dbfault"]) + "]"
+            sv = dbspec[i]
+            clauses = [] if sv == "ok" else ["unparseable-observation"] if sv == "bad-op" else [x + tag for x in sv.split(",")]
+            f = split_final(fin)
+            if c["art"] and f["meta"] != "none" and f["exit"].startswith("ret:") and f["meta"].split(":")[0] != f["exit"][4:]:
+                clauses.append("meta-exit-code" + tag)
+            pm, pi = split_final(dbmodel[i]), split_final(dbproj[i])
+            diff = [k + tag for k in pm if pm[k] != pi.get(k)]
+            out.append((fin, dbmodel[i], clauses, [d + tag for d in direct], diff, o))
             continue
         sv = spec_by[i]
         clauses = [] if sv == "ok" else sv.split(",")
@@ -728,6 +808,8 @@ def run(ctx):
                 groups.setdefault(("direct", dn), []).append(i)
             if diff and not clauses and not direct:
                 groups.setdefault(("tie", "+".join(sorted(set(x.split(":")[0] for x in diff)))), []).append(i)
+            if c.get("dbfault"):
+                ctx.kind("dbfault:" + fault_name(c["dbfault"]).rsplit(".", 1)[0], "dbfault-mode:" + c["dbfault"]["mode"])
         ctx.traces_validated += len(cases)
         # a shipped AsyncScript end to end (no model: the clauses are evaluated directly)
         co = concrete.get(120)[0]
@@ -761,16 +843,20 @@ def run(ctx):
                     name.startswith("exit-code[") and "exit-code" in r[2] and exit_detail(r[0]) == name)
             elif gk == "direct":
                 pred = lambda r, name=name: name in r[3]  # noqa: E731
+            elif "[" in name:   # a database-fault case: the same fields at the same fault point
+                pred = lambda r, name=name: bool(r[4]) and not r[2] and not r[3] and "+".join(sorted(set(r[4]))) == name  # noqa: E731
             else:
                 pred = lambda r, name=name: bool(r[4]) and not r[2] and not r[3]  # noqa: E731
-            small = shrink(ctx, runner, start, pred)
+            # (database-fault cases: the set contains the smallest run for every fault point, so the smallest of the group is it)
+            small = start if start.get("dbfault") else shrink(ctx, runner, start, pred)
             r = evaluate(ctx, runner, [small])[0]
             fin, mod, clauses, direct, diff, o = r
             key = f"{gk}:{name}@{describe(small)}"
             # which of the repaired behaviours of the pinned tree, switched on in the model, reproduces this run?
             alts = ctx.lean([" ".join(["run", "".join(q), world_token(small), small["kind"], cfg_bits(small)] + script_words(small))
                              for q in itertools.product("01", repeat=NQ)])
-            match = [q for q, a in zip(itertools.product("01", repeat=NQ), alts) if fin is not None and not tie_diff(a, fin)]
+            match = [q for q, a in zip(itertools.product("01", repeat=NQ), alts)
+                     if fin is not None and not small.get("dbfault") and not tie_diff(a, fin)]
             like = ""
             if match and gk != "tie":
                 q = min(match, key=lambda q: q.count("1"))
@@ -831,21 +917,27 @@ MANIFEST = {
                    "released, the post-hook sees the same code and META, failing hooks are reported and change nothing; a failing "
                    "setup step skips main and teardown, a raising teardown step replaces whatever main did, the artifacts "
                    "directory is fresh (no earlier run's META.json is ever overwritten; LATEST points at the name-wise last run), "
-                   "a busy lock only delays the run; which half-finished setups / teardowns leave the transport, the "
+                   "a busy lock only delays the run; one fault at ANY awaited sqlite statement inside DBHandler.connect / insert_run_meta / "
+                   "complete_run_meta / disconnect (the statement fails with OperationalError, or Ctrl-C arrives while it is awaited and "
+                   "the sqlite thread still performs it; Model/LifecycleDb.lean, theorem dbfault_consistent_iff over every fault point, "
+                   "index unbounded, every kind and every ending of the command): exit code from the mapping, run entry absent or "
+                   "completed with that code, connection closed, finally block run to its end - except exactly at Ctrl-C during the "
+                   "INSERT (recorded defect); which half-finished setups / teardowns leave the transport, the "
                    "tester-present task or dumpcap behind is characterised exactly. The except ladder, the statement order of "
                    "entry_point, prepare_artifacts_dir and the four setup / teardown methods with their guards, the exit "
                    "constants (incl. OSFILE), mkdir's flags and CATCHED_EXCEPTIONS are regenerated from the AST / live modules "
                    "with agreement theorems. Tied to the code by running the real entry_point() (three tiny command classes; "
                    "fake transport / ECU / power supply / dumpcap that raise on script, the real tcp-lines transport and "
                    "power-supply driver against a closed port; real sqlite, flock probed and held from a second fd, pre-made run "
-                   "directories and LATEST, pinned clock, zstd log decoded with PenlogReader, recording hook scripts, real SIGINT) "
+                   "directories and LATEST, pinned clock, zstd log decoded with PenlogReader, recording hook scripts, real SIGINT, "
+                   "aiosqlite.Connection.execute / executescript / commit wrapped to fail or be interrupted at the n-th statement of a call) "
                    "over the crash-point matrix and comparing with the model and the executable spec; plus one shipped command "
                    "end to end (`discover doip` with --db against a closed port)."),
     "level_note": ("Trusted: Lean kernel (propext, Quot.sound, Classical.choice), the translator gen/c15_exit.py, the harness, "
                    "sqlite3/aiosqlite, zstandard, flock, subprocess, pathlib. Partial: process-level signal delivery and "
                    "interpreter exit are represented by KeyboardInterrupt / task cancellation and by the return value of "
-                   "entry_point(); that a process interrupted while waiting for a busy lock only ends once the lock is free, faults "
-                   "inside the finally block's database completion, "
+                   "entry_point(); that a process interrupted while waiting for a busy lock only ends once the lock is free, more than "
+                   "one database fault per run, an OperationalError inside complete_run_meta (compared, completed row not demanded), "
                    "failures of prepare_artifacts_dir after mkdir and the optional ECUReset / ping / power-cycle steps are not "
                    "modelled; for a run whose artifacts directory cannot be created the property names no ending, the model "
                    "follows the code (OSError escapes); config re-creation is only checked by round-tripping META.json's config "
